@@ -30,7 +30,7 @@ RULE = ('A: include trees (all ordered rooted tree shapes up to N files + repeat
 ASSUMPTIONS = ['in-memory readers registered after the two default readers', 'scratch directory created per run and removed']
 WITNESSES = ['later_binding_overrides_across_include', 'binding_after_include_wins', 'depth3', 'tree_mirrored',
              'imports_per_file', 'missing_include_ioerror', 'location_order', 'reader_order_within_location',
-             'absolute_bypasses', 'package_relative', 'namespace_package_location', 'namespace_package_two_portions', 'module_is_not_a_directory', 'missing_nested_include_aborts', 'files_then_bindings_then_finalize',
+             'absolute_bypasses', 'package_relative', 'namespace_package_location', 'namespace_package_two_portions', 'reparse_after_failure', 'unreadable_include_is_an_error_when_lenient', 'module_is_not_a_directory', 'missing_nested_include_aborts', 'files_then_bindings_then_finalize',
              'finalize_disabled', 'unknown_default_error', 'real_files', 'repeated_inclusion', 'second_resolution_fresh', 'location_registered_twice']
 
 MEM1, MEM2 = {}, {}
@@ -521,6 +521,56 @@ def run_special_case(case, res):
                       (desc, out, r), desc)
       else:
         res.w('missing_nested_include_aborts')
+    elif kind in ('reparse_after_failed_include', 'reparse_after_semantic_error'):
+      # a parse that failed inside a file must not poison later parses of the very same files
+      MEM1['c14r_root.gin'] = "c14.f.x = 'root'\ninclude 'c14r_mid.gin'\n"
+      MEM1['c14r_mid.gin'] = "c14.f.y = 'mid'\ninclude 'c14r_leaf.gin'\n"
+      if kind == 'reparse_after_semantic_error':
+        MEM1['c14r_leaf.gin'] = "c14.f.z = 'leaf'\nc14.no_such_configurable.p = 1\n"
+      first = 'ok'
+      try:
+        gin.parse_config_file('c14r_root.gin')
+      except IOError:
+        first = 'IOError'
+      except ValueError:
+        first = 'ValueError'
+      MEM1['c14r_leaf.gin'] = "c14.f.z = 'leaf'\n"      # repaired / created
+      try:
+        gin.parse_config_file('c14r_root.gin')
+        second = 'ok'
+      except Exception as e:  # pylint: disable=broad-except
+        second = 'raised %r' % (e,)
+      r = F()
+      want_first = 'IOError' if kind == 'reparse_after_failed_include' else 'ValueError'
+      if first != want_first or second != 'ok' or r[:3] != ('root', 'mid', 'leaf'):
+        res.violation('include_not_inplace', '%r: first parse %s (expected %s), second parse of the repaired tree %s, f() = %r'
+                      % (desc, first, want_first, second, r), desc)
+      else:
+        res.w('reparse_after_failure')
+    elif kind.startswith('unreadable_include_lenient'):
+      # lenient parsing (skip_unknown) is about unknown configurables and modules, not about files nobody can read
+      skip = {'unreadable_include_lenient_true': True, 'unreadable_include_lenient_list': ['c14.nothing'],
+              'unreadable_include_lenient_nested': True, 'unreadable_include_lenient_string': True}[kind]
+      MEM1['c14u_root.gin'] = "c14.f.x = 'root'\ninclude 'c14u_mid.gin'\nc14.f.w = 'after'\n"
+      MEM1['c14u_mid.gin'] = ("c14.f.y = 'mid'\n" if kind.endswith('nested') else '') + "include 'c14u_nobody_has_this.gin'\n"
+      if not kind.endswith('nested'):
+        MEM1['c14u_root.gin'] = "c14.f.x = 'root'\ninclude 'c14u_nobody_has_this.gin'\nc14.f.w = 'after'\n"
+      try:
+        if kind.endswith('string'):
+          gin.parse_config("c14.f.x = 'root'\ninclude 'c14u_nobody_has_this.gin'\nc14.f.w = 'after'\n", skip_unknown=skip)
+        else:
+          gin.parse_config_file('c14u_root.gin', skip_unknown=skip)
+        out = 'accepted'
+      except IOError:
+        out = 'IOError'
+      except Exception as e:  # pylint: disable=broad-except
+        out = type(e).__name__
+      r = F()
+      if out != 'IOError' or r[3] is not None:
+        res.violation('missing_file_message', '%r: an include nobody can read under skip_unknown=%r: parse %s, f() = %r' %
+                      (desc, skip, out, r), desc)
+      else:
+        res.w('unreadable_include_is_an_error_when_lenient')
     elif kind in ('module_as_directory', 'builtin_module_as_directory'):
       # the directory part of a package-relative name must be a package: a plain module (or a built-in one) has no
       # directory of its own, so nothing can be read "inside" it
@@ -587,7 +637,9 @@ def run_special_case(case, res):
 SPECIALS = ['absolute_present', 'absolute_missing', 'package_regular', 'package_nested', 'namespace_location_missing',
             'namespace_location_later', 'namespace_location_present', 'namespace_two_portions_first',
             'namespace_two_portions_second', 'namespace_two_portions_include', 'earlier_copy_missing_include',
-            'earlier_reader_missing_include', 'module_as_directory', 'builtin_module_as_directory']
+            'earlier_reader_missing_include', 'module_as_directory', 'builtin_module_as_directory',
+            'reparse_after_failed_include', 'reparse_after_semantic_error', 'unreadable_include_lenient_true',
+            'unreadable_include_lenient_list', 'unreadable_include_lenient_nested', 'unreadable_include_lenient_string']
 
 
 # ------------------------------------------------------------------------------------ C: multi-file entry point
